@@ -52,7 +52,7 @@ claim("C15", "exploration",
       "RewindableCursor (1-2 claimers + 1-2 rewinders, every start/target), the first-unexecuted frontier through SchedulerContext (every split/order of 3 completions over 2-3 publishers plus a sampling reader; visibility probed with Relaxed flags) and the validation/rewind/finality timestamp protocol are explored by loom on the production functions (no re-implementation): no claim at or beyond the limit, every rewound index offered again, the frontier never passes an invisible execution and always catches up, a validation predating a covering rewind never yields finality.",
       "DESIGN.md §4 C15", LOOM_NOTE)
 claim("C16", "exploration",
-      "loom: exhaustive interleavings of the source-included TxDependency under scripted execution outcomes, then a sequential drain that detects orphans",
+      "loom: exhaustive interleavings of the source-included TxDependency under scripted execution outcomes, then a sequential drain that detects orphans and checks after every commit(k) that k+1 is on offer at once",
       "2-3 claimers run bounded iterations of the worker loop (next / duplicate-claim handling / remove / add / key_tx with scripted per-attempt outcomes) against one committer publishing the committed cursor, for every outcome script over 2-4 transactions; afterwards the loop is drained sequentially: any transaction that is neither executed nor on offer is an orphan. A release of a blocked transaction by the graph requires its current blocker to be resolved (stale reverse edges), ownership is exclusive under the transaction lock.",
       "DESIGN.md §4 C16", LOOM_NOTE)
 claim("C17", "exploration",
@@ -69,7 +69,7 @@ claim("C12", "exploration",
       "19 programs reaching CREATE/CREATE2 (top-level create, ordinary contract, nested call, delegatecall, staticcall, delegated EOA top-level and nested, delegated EOA calling an ordinary factory, ordinary contract delegatecalling the delegate's code, delegated create followed by the account's own transaction, in-block delegation) on seven rule sets (Byzantium..Amsterdam), guard on and off, designators present and absent, sequential and parallel path. Where no create runs in a delegated context the result must be bit-identical to stock revm; otherwise identical to stock revm on the same program with the delegate target's create opcode replaced by an undefined opcode, modulo the halt reason. The opcode sweep executes every opcode byte after a fixed stack priming with the guard on against stock revm (result, gas, output).",
       "DESIGN.md §4 C12", SCHED_NOTE)
 claim("C13", "exploration",
-      "bounded exhaustive enumeration of reserve blocks (debit kind x variant {plain, inner revert, credit before, authorisation in the transaction, funded by an earlier transaction, refunded, reached through an ordinary contract, two debits, create transaction} x boundary balance x number of later own transactions) x policy x paths x deviation-bounded schedule DFS, oracle = independent evaluation of the rule + stock revm + forced-sequential relation",
+      "bounded exhaustive enumeration of reserve blocks (debit kind x variant {plain, inner revert, credit before, authorisation in the transaction, funded by an earlier transaction, refunded, reached through an ordinary contract, two debits, create transaction} x boundary balance x number of later own transactions) x policy x paths x deviation-bounded schedule DFS, oracle = independent evaluation of the rule + stock revm + forced-sequential relation; not covered: a delegated account sending a valued transaction to itself (seeded C13e, DESIGN 11.6)",
       "The rule (violation iff a surviving net debit leaves the delegated account below min(balance before the first debit, saturating sum of the maximum costs of its later own transactions)) is evaluated independently from the block parameters. No violation or policy off: the observation must equal stock revm. Violation: a charged top-level Revert with empty output and the gas the execution spent, no state but nonce/fee/authorisation effects, the account keeps its balance, its later transactions all execute, and the observation equals the forced-sequential run. Includes exact / exact-1 boundary balances, inner reverts, credits before the debit, refunded debits, authorisation in the debiting transaction and a balance that only an earlier in-block transfer provides (stale speculative read).",
       "DESIGN.md §4 C13", SCHED_NOTE)
 
